@@ -200,6 +200,7 @@ impl W {
         srv.set_password(u("u7"), "primary pw of u7 k2", t(3)).await;
         let old = srv.login("u7", Some("primary pw of u7 k2"), t(4)).await.expect("login u7");
         secrets.insert("ua0:u7".into(), old.to_string());
+        drain_all(&mut srv, t(4)).await;
         // 4. domain flag
         if flag != "unset" {
             let mut w = srv.idms.proxy_write(t(5)).await.expect("pw");
@@ -213,6 +214,7 @@ impl W {
         }
         let fut = srv.login("u7", Some("primary pw of u7 k2"), Duration::from_secs(TF)).await.expect("login u7 (future)");
         secrets.insert("ua:u7".into(), fut.to_string());
+        drain_all(&mut srv, Duration::from_secs(TF)).await;
         let ldaps = LdapServer::new(&srv.idms).await.expect("ldap server");
         W { srv, ldaps, k: 10, secrets, conn: None, dgs: Vec::new(), dcache: None, msgid: 1 }
     }
@@ -228,7 +230,6 @@ impl W {
     }
 
     async fn digest(&mut self) -> i64 {
-        let _t = std::time::Instant::now();
         let hex = {
             let mut pr = self.srv.idms.proxy_read().await.expect("proxy_read");
             let all = search_all(&mut pr.qs_read);
@@ -239,7 +240,6 @@ impl W {
             }
             hex::encode(h.finalize())
         };
-        if std::env::var("C40_TIMING").is_ok() { eprintln!("digest {:?}", _t.elapsed()); }
         let i = match self.dgs.iter().position(|d| *d == hex) {
             Some(i) => i as i64,
             None => {
@@ -292,6 +292,28 @@ impl W {
             _ => None,
         }
     }
+}
+
+/// Process every queued delayed action as the server's background task does (one write transaction per
+/// action).  Unlike a bare `recv_many(..).now_or_never()` this is not subject to tokio's cooperative
+/// budget (which makes recv_many return Pending although an action is queued), so no action is left behind.
+async fn drain_all(srv: &mut Srv, ct: Duration) -> usize {
+    let mut n = 0;
+    loop {
+        let mut buf: Vec<kanidmd_lib::idm::delayed::DelayedAction> = Vec::with_capacity(16);
+        match tokio::task::unconstrained(srv.delayed.recv_many(&mut buf)).now_or_never() {
+            Some(k) if k > 0 => {
+                for da in buf.iter() {
+                    let mut pw = srv.idms.proxy_write(ct).await.expect("proxy_write");
+                    pw.process_delayedaction(da, ct).expect("delayed action");
+                    pw.commit().expect("commit delayed");
+                    n += 1;
+                }
+            }
+            _ => break,
+        }
+    }
+    n + srv.drain(ct).await
 }
 
 fn scope_str(id: &Identity) -> String {
@@ -546,7 +568,7 @@ async fn exec(w: &mut W, act: &J, tr: &mut Tracer) {
                 Ok(_) => ("err".to_string(), "unexpected-state".to_string(), None),
                 Err(e) => (if e == "panic" { "panic".to_string() } else { "err".to_string() }, e, None),
             };
-            let dl = w.srv.drain(t(w.k)).await;
+            let dl = drain_all(&mut w.srv, t(w.k)).await;
             let (eid, sc) = match &newtok {
                 Some(lbt) => w.ident_proj(lbt, Source::Ldaps(ip())).await,
                 None => ("".into(), "".into()),
@@ -584,7 +606,7 @@ async fn exec(w: &mut W, act: &J, tr: &mut Tracer) {
                 Ok(_) => ("err".to_string(), "unexpected-state".to_string(), vec![]),
                 Err(e) => (if e == "panic" { "panic".to_string() } else { "err".to_string() }, e, vec![]),
             };
-            let dl = w.srv.drain(t(w.k)).await;
+            let dl = drain_all(&mut w.srv, t(w.k)).await;
             // mapped attribute request (input of the native search), as do_search computes it
             let lreq: Vec<String> = req.iter().map(|a| a.to_lowercase()).collect();
             let kall = req.is_empty() || lreq.iter().any(|a| a == "*" || a == "+") || (lreq.len() == 1 && lreq[0] == "1.1");
@@ -640,7 +662,7 @@ async fn exec(w: &mut W, act: &J, tr: &mut Tracer) {
                     Ok(_) => ares = "err".into(),
                     Err(e) => ares = if e == "panic" { "panic".into() } else { "err".into() },
                 }
-                w.srv.drain(t(w.k)).await;
+                drain_all(&mut w.srv, t(w.k)).await;
             }
             let dg1 = w.digest().await;
             let bk = if base == BASEDN {
@@ -692,7 +714,7 @@ async fn exec(w: &mut W, act: &J, tr: &mut Tracer) {
                 Ok(_) => ("err".to_string(), "unexpected-state".to_string()),
                 Err(e) => (if e == "panic" { "panic".to_string() } else { "err".to_string() }, e),
             };
-            let dl = w.srv.drain(t(w.k)).await;
+            let dl = drain_all(&mut w.srv, t(w.k)).await;
             let mut ares = "skip".to_string();
             if let Some(atok) = w.anon_token().await {
                 ares = match w.do_op(ServerOps::Compare(cr), Some(atok)).await {
@@ -701,7 +723,7 @@ async fn exec(w: &mut W, act: &J, tr: &mut Tracer) {
                     Ok(_) => "err".into(),
                     Err(e) => if e == "panic" { "panic".into() } else { "err".into() },
                 };
-                w.srv.drain(t(w.k)).await;
+                drain_all(&mut w.srv, t(w.k)).await;
             }
             let dg1 = w.digest().await;
             tr.emit(&json!({"a":"compare","dn":dn,"at":at,"val":val,"tk":tk,"tu":tu,"ab":ab,"res":res,"code":code,
@@ -723,7 +745,7 @@ async fn exec(w: &mut W, act: &J, tr: &mut Tracer) {
                 Ok(_) => ("err".to_string(), "".to_string()),
                 Err(e) => (if e == "panic" { "panic".to_string() } else { "err".to_string() }, "".to_string()),
             };
-            let dl = w.srv.drain(t(w.k)).await;
+            let dl = drain_all(&mut w.srv, t(w.k)).await;
             let dg1 = w.digest().await;
             tr.emit(&json!({"a":"whoami","tk":tk,"tu":tu,"res":res,"who":who,"dg0":dg0,"dg1":dg1,"dl":dl}));
         }
@@ -739,7 +761,7 @@ async fn exec(w: &mut W, act: &J, tr: &mut Tracer) {
                 Ok(_) => "err".to_string(),
                 Err(e) => if e == "panic" { "panic".to_string() } else { "err".to_string() },
             };
-            let dl = w.srv.drain(t(w.k)).await;
+            let dl = drain_all(&mut w.srv, t(w.k)).await;
             let dg1 = w.digest().await;
             tr.emit(&json!({"a":"unbind","tk":tk,"tu":tu,"res":res,"dg0":dg0,"dg1":dg1,"dl":dl}));
         }
@@ -774,7 +796,7 @@ async fn exec(w: &mut W, act: &J, tr: &mut Tracer) {
                     Err(e) => e,
                 },
             };
-            let dl = w.srv.drain(t(w.k)).await;
+            let dl = drain_all(&mut w.srv, t(w.k)).await;
             let dg1 = w.digest().await;
             tr.emit(&json!({"a":"wop","op":opn,"tk":tk,"tu":tu,"res":res,"dg0":dg0,"dg1":dg1,"dl":dl}));
         }
